@@ -136,6 +136,12 @@ def _case(arg) -> Dict[str, Any]:
     if seed % 6 == 2:
         per_rank = gen.wide_narrow_set(seed, **kw)  # rank 1's launch names (cudaLaunchKernelExC, cudaMemcpyAsync) get trace-wide symbol ids beyond 127
         nr = 2
+    if seed % 16 == 7:
+        # nine ranks loaded through the default entry point (worker pool + memory probe): every rank's statistics are that rank's
+        per_rank = {}
+        for r_ in range(9):
+            per_rank[r_] = gen.gen_trace_set(seed + 100 * r_, n_ranks=1, n_threads=1, n_streams=1 + r_ % 2, steps=1, n_top=1 + r_ % 3, p_memcpy=0.3, p_missing_kernel=0.1)[0]
+        nr = 9
     if seed % 3 == 0:  # memset launches too
         for evs in per_rank.values():
             for e in evs:
@@ -143,7 +149,7 @@ def _case(arg) -> Dict[str, Any]:
                     e["name"] = "cudaMemsetAsync"
     fails: List[Dict[str, Any]] = []
     n = 0
-    req = [[0], None, list(range(nr))][seed % 3]
+    req = list(range(nr)) if nr == 9 else [[0], None, list(range(nr))][seed % 3]
     inp = {"seed": seed, "include_memory_events": with_mem, "ranks": req, "events": per_rank}
     with rt.trace_dir(per_rank) as d:
         try:
